@@ -35,8 +35,10 @@ def check_single_pass(ctx: Ctx, rule: str, builder_name: str) -> bool:
 
     from . import util
 
+    from sa import schemes_model as _S
+
     f = ctx.sm.func("schemes.py", builder_name)
-    v = util.value_of(ctx, f)
+    v = _S.builder_value(ctx.sm, f)
     key = f.key("single-pass")
     inner = av._unwrap_seq(v)
     if av.has_unk(v) and inner[0] != "comp":
